@@ -135,6 +135,9 @@ def run(ctx):
         oracles(ctx, o3)
     except Exception as e:
         ctx.obligation("oracles:C07", False, repr(e)[:1500])
+    import extra_oracles as _xo
+    from e3nn.math import normalize2mom as _n2m
+    _xo.c07_inplace_activation_history(ctx, _n2m, lambda n: gauss_hermite_second_moment(lambda t: n(t.clone())))
     ctx.notes["rule"] = "exact-moment certificate per generated program with unit path weights (law does not apply otherwise); Linear/TensorSquare by exact Wick formulas on autograd-extracted coefficients"
     ctx.assumptions += [
         "expectation = linear functional with the moment factorisation of independent centred Gaussians (E z²=σ², E z⁴=3σ⁴, odd moments 0): hypotheses of Props/C07, not proved to be realised by a measure",
